@@ -43,20 +43,43 @@ def rand_vectors(ctx, family, n, tag=None, env=None):
 CLI_FAMILIES = {"snps": 60, "closest": 60, "sam": 25, "variants": 40, "updown": 40}
 
 
+def option_signature(v):
+    """The option-like part of a vector: its scalar fields, and those of its `opts` (sequences, runs and ids left out)."""
+    items = [(k, x) for k, x in v.items() if k not in ("id", "cli") and isinstance(x, (int, str, bool))]
+    if isinstance(v.get("opts"), dict):
+        items += [("opts." + k, x) for k, x in v["opts"].items() if isinstance(x, (int, str, bool))]
+    if isinstance(v.get("recs"), list):
+        # SAM blocks: the shapes of the CIGARs (first / last operator of every record, the operators that occur)
+        shapes = sorted({(r["cig"][0][0], r["cig"][-1][0]) for r in v["recs"] if r.get("cig")})
+        ops = sorted({o for r in v["recs"] for o, _ in r.get("cig", [])})
+        items += [("cigar.shapes", shapes), ("cigar.ops", ops), ("nrecs", len(v["recs"]))]
+    if isinstance(v.get("feats"), list):
+        items += [("feats", [(f.get("strand"), len(f.get("segs", [])), f.get("cstart"), f.get("named")) for f in v["feats"]])]
+    return tuple(sorted((k, str(x)) for k, x in items))
+
+
 def flag_cli(ctx, family, vecs):
     n = CLI_FAMILIES.get(family, 0) * (1 if ctx.quick else 10)
     if n == 0 or not vecs:
         return 0
     if not getattr(ctx, "gofasta_built", False):
         ctx.build(harness=False, gofasta=True)
+    # a stride through the vectors, plus one vector for every distinct combination of options (up to 3n of them): a flag
+    # value that cmd/ treats specially (-d 0, --threshold 1, -n larger than the file ...) must not depend on the stride
     stride = max(1, len(vecs) // n)
-    k = 0
-    for i, v in enumerate(vecs):
-        if (i + ctx.seed) % stride == 0:
-            v["cli"] = True
-            k += 1
-    ctx.extra["cli_wiring_vectors"] = ctx.extra.get("cli_wiring_vectors", 0) + k
-    return k
+    chosen = {i for i in range(len(vecs)) if (i + ctx.seed) % stride == 0}
+    seen = set()
+    order = list(range(len(vecs)))
+    order = order[ctx.seed % len(order):] + order[:ctx.seed % len(order)]
+    for i in order:
+        sig = option_signature(vecs[i])
+        if sig not in seen and len(seen) < 3 * n:
+            seen.add(sig)
+            chosen.add(i)
+    for i in chosen:
+        vecs[i]["cli"] = True
+    ctx.extra["cli_wiring_vectors"] = ctx.extra.get("cli_wiring_vectors", 0) + len(chosen)
+    return len(chosen)
 
 
 def run_vectors(ctx, family, vecs, tag=None, jobs=None, env=None, timeout=3000):
